@@ -124,6 +124,15 @@ StallNs(ns, n, v) ==
 
 ClearPend(ns) == [a \in DOMAIN ns |-> [ns[a] EXCEPT !.pend = <<>>]]
 
+(* some held message was handed to the transmit buffer between the two states *)
+ReleasedAny(old, new) == \E a \in DOMAIN old : a \in DOMAIN new /\ Len(new[a].defer) < Len(old[a].defer)
+(* "held traffic resumes": the step that releases held messages also transmits them (the library flushes after a retry
+   that handed something over) - what is still waiting afterwards can only be what was submitted after the release.
+   rel = node table right after the release, sent = after the messages submitted later in the same step, fin = after
+   the observed bytes were consumed *)
+ReleaseTransmitted(old, rel, sent, fin) ==
+    ReleasedAny(old, rel) => \A a \in DOMAIN rel : Len(fin[a].pend) <= Len(sent[a].pend) - Len(rel[a].pend)
+
 (* ------------------------------------------------------------------ ghost *)
 (* Ghost state is kept small (counters, not histories): sub[n] = number of messages submitted for n,
    wired[n] = number handed to the transmit buffer, last[n] = sequence number of the last one handed over.
